@@ -303,7 +303,7 @@ def variant_of(rng, spec, labels, kinds=None):
 
     idx = copy.deepcopy(spec["indices"])
     nd = len(idx)
-    kinds = list(kinds or ["dual", "size", "label", "sector", "sym", "data", "charge"])
+    kinds = list(kinds or ["dual", "size", "label", "sector", "sym", "data", "charge", "dtype"])
     rng.shuffle(kinds)
     for kind in kinds:
         if kind == "dual" and nd:
@@ -362,5 +362,9 @@ def variant_of(rng, spec, labels, kinds=None):
         if kind == "data":
             new = dict(spec)
             new["seed"] = rng.randrange(2**31)
+            return kind, new
+        if kind == "dtype":
+            new = dict(spec)
+            new["dtype"] = rng.choice([d for d in DTYPES if d != spec["dtype"]])
             return kind, new
     return None, None
